@@ -346,6 +346,29 @@ def check_predictor(res, case, p, entries, sub0, tag):
                                           f"{float(dsec):.3g} s [entry {k}]", case, dict(sub0, entry=k, guess_entry=k + dk))
                         if dk:
                             res.hits["time_at with a guess in another entry"] += 1
+        # phases predicted a fraction of a millisecond inside the ends of every validity interval (and exactly on them)
+        try:
+            ivs_ = list(p.intervals)
+        except Exception:
+            ivs_ = []
+        for a_, b_ in ivs_:
+            for tt_, what in ((b_ - 1e-4 * u.s, "end - 0.1 ms"), (b_ - 1e-6 * u.s, "end - 1 us"), (a_ + 1e-5 * u.s, "start + 10 us"),
+                              (a_ + 3e-4 * u.s, "start + 0.3 ms"), (a_, "start"), (b_, "end")):
+                res.transitions += 2
+                try:
+                    ph_ = p(tt_)
+                    tb_ = p.time_at(ph_)
+                except Exception as ex:
+                    res.violation(f"{tag}|time_at near an interval end raised", f"time_at(p({what})): {type(ex).__name__}: {ex}", case,
+                                  dict(sub0, where=what))
+                    break
+                dsec = abs(exact_mjd(tb_) - exact_mjd(tt_)) * 86400
+                if not res.ratio("time_at err / 1e-7 s", dsec, F(1, 10 ** 7) + F(1, 10 ** 6) / entries[0].f0):
+                    res.violation(f"{tag}|time_at near an interval end value", f"time_at(p({what})) is off by {float(dsec):.3g} s", case,
+                                  dict(sub0, where=what))
+                    break
+            else:
+                res.hits["time_at near the ends of an interval"] += 1
         # phases outside -> ValueError
         lo = entries[0].phase(entries[0].start) - 1000
         hi = entries[-1].phase(entries[-1].stop) + 1000
@@ -475,7 +498,7 @@ def main(argv=None):
     return report.run_check(
         PID, gen_cases=gen_cases, check_case=check_case, describe=describe,
         required_hits=["spans merged", "several disjoint intervals", "unsorted array across entries", "outside rejected",
-                       "phasepol", "history: predictions re-checked after phasepol", "time_at", "time_at with a guess in another entry", "row subsets", "rows selected in another order",
+                       "phasepol", "history: predictions re-checked after phasepol", "time_at", "time_at with a guess in another entry", "time_at near the ends of an interval", "row subsets", "rows selected in another order",
                        "coefficient count not a multiple of three", "D exponents", "shipped file", "mixed entries rejected", "other time scales"],
         assumptions=["decimal strings of the text are the exact inputs; time is the exact (jd1, jd2) of the Time object; budget "
                      "1e-8 cycle + F0*86400*2^-51", "times inside a < 1 ms gap between spans and exactly on a span end are "
